@@ -151,7 +151,14 @@ def _body(S, shape, spacing, quick, seed=0):
         hs = calc_holo(sub, sph, **kw).values.reshape(-1)
         for j, i in enumerate(sel):
             S.claim_eq(f'{tag}.forward[{j}]', hs[j], hv[i // ny, i % ny])
+    # seed 0 is a seed like any other
     rec.selection = [0]
+    del rec.calls[:]
+    make_subset_data(img, pixels=1, seed=0)
+    S.claim('seed_zero_honoured', ('seed', 0) in rec.calls)
+    del rec.calls[:]
+    make_subset_data(img, pixels=1)
+    S.claim('no_seed_no_reseeding', not any(cl[0] == 'seed' for cl in rec.calls))
     whole = make_subset_data(img, pixels=None)
     S.claim_is('no_pixels_returns_input', whole, img)
     S.claim_eq('input_values_untouched', img.values.reshape(nx, ny), vals)
@@ -180,3 +187,33 @@ _mk((2, 3), 0.2)
 _mk((3, 3), (0.2, 0.1), tier='thorough')
 _mk((2, 3), 0.2, tier='thorough', quick=False)
 _mk((2, 2), 0.1, tier='thorough', quick=False)
+
+
+from props import mlcommon as mc  # noqa
+from holopy.scattering.theory.mielens import MieLens  # noqa
+
+
+@obligation('C07.mielens.mixed_near_far', functions=mc.ML_FUNCS, stubs=mc.ML_STUBS, angle_mode='atoms', nvalid=2,
+            max_paths=64,
+            bounds='MieLens.raw_fields on detector points given alone, together with a second near point, and together '
+                   'with a point beyond the large-rho cutoff: the field at a point does not depend on which other '
+                   'points are in the same call')
+def mielens_mixed(S):
+    mc.setup(S)
+    mc.install_stub_calculator(S)
+    theory = MieLens(lens_angle=0.9)
+    near = S.real('krho_near', lo=0, hi=380)
+    near2 = S.real('krho_near2', lo=0, hi=380)
+    far = S.real('krho_far', lo=400, hi=2000)
+    ph = [S.angle(f'phi{i}', 0, 2) for i in range(3)]
+    kz = S.real('kz')
+    alone = mc.raw_fields(S, theory, [near], [ph[0]], kz, 0)
+    with_near = mc.raw_fields(S, theory, [near, near2], [ph[0], ph[1]], kz, 0)
+    with_far = mc.raw_fields(S, theory, [near, far], [ph[0], ph[2]], kz, 0)
+    far_first = mc.raw_fields(S, theory, [far, near], [ph[2], ph[0]], kz, 0)
+    only_far = mc.raw_fields(S, theory, [far], [ph[2]], kz, 0)
+    S.observe('alone', alone)
+    S.claim_eq('with_second_near_point', with_near[:, 0], alone[:, 0])
+    S.claim_eq('with_far_point', with_far[:, 0], alone[:, 0])
+    S.claim_eq('far_point_first', far_first[:, 1], alone[:, 0])
+    S.claim_eq('far_value_in_mixed_call', with_far[:, 1], only_far[:, 0])
